@@ -1139,9 +1139,8 @@ func (c *Conn) writeRequest(ctx *Ctx) error {
 
 	if hasBody {
 		pb := &pendingBody{
-			ctx:    ctx,
-			window: c.streamWindow,
-			size:   -1,
+			ctx:  ctx,
+			size: -1,
 		}
 
 		if bodyStream {
@@ -1155,7 +1154,14 @@ func (c *Conn) writeRequest(ctx *Ctx) error {
 		}
 
 		verifPoint("cli.req.pending")
+		// The stream's window starts at the server's current initial window,
+		// read under the lock that also guards its changes and in the same
+		// critical section that makes the stream visible to them: read earlier,
+		// a SETTINGS frame arriving in between changed streamWindow without
+		// reaching this stream, which then ran with a window the server had
+		// already taken back (or never used one it had been given).
 		c.sendLck.Lock()
+		pb.window = c.streamWindow
 		c.pending[id] = pb
 		c.sendLck.Unlock()
 	}
